@@ -92,11 +92,12 @@ func (lalr *LALR1) UseDefaultResolveConflict(act01, act02 *Action) *Action {
 	} else if act02.ActionType == SHIFT {
 		return act02
 	} else {
-		// double reduce
+		// double reduce: ActionIndex is the negated rule index,
+		// so the rule defined first has the larger ActionIndex
 		if act01.ActionIndex > act02.ActionIndex {
-			return act02
-		} else {
 			return act01
+		} else {
+			return act02
 		}
 	}
 }
